@@ -148,3 +148,64 @@ pub fn edit_calls(v: &RVal, o: &Opts) -> Vec<Call> {
     }
     out
 }
+
+// ---------------------------------------------------------------------------------------------
+// every function that writes into a caller-provided buffer (C17)
+
+pub type BufFn = Box<dyn Fn(&mut Vec<u8>, &mut Vec<u64>) -> Result<(), jsonb::Error> + Send + Sync>;
+
+pub struct BufCall {
+    pub label: String,
+    pub run: BufFn,
+}
+
+pub const PATH_MENU: [&str; 12] = ["$", "$.*", "$[*]", "$.a", "$[0]", "$[last]", "$[0 to last]", "$[*]?(@ == 1)", "$.*?(exists(@.a))", "$[*].a", "$[*][*]", "$.a > 0"];
+
+pub fn buffer_calls(v: &RVal, o: &Opts) -> Vec<BufCall> {
+    let mut out: Vec<BufCall> = edit_calls(v, o)
+        .into_iter()
+        .map(|c| {
+            let run = c.run;
+            BufCall { label: c.label, run: Box::new(move |d, _| run(d)) }
+        })
+        .collect();
+    let b: Arc<Vec<u8>> = Arc::new(enc(v));
+    let val = crate::conv::to_value(v);
+    {
+        let val = val.clone();
+        out.push(BufCall { label: "Value::write_to_vec".into(), run: Box::new(move |d, _| { val.write_to_vec(d); Ok(()) }) });
+    }
+    {
+        let val = val.clone();
+        out.push(BufCall { label: "LazyValue::Value::write_to_vec".into(), run: Box::new(move |d, _| { jsonb::LazyValue::Value(val.clone()).write_to_vec(d); Ok(()) }) });
+        let b1 = b.clone();
+        out.push(BufCall { label: "LazyValue::Raw::write_to_vec".into(), run: Box::new(move |d, _| { jsonb::LazyValue::Raw(std::borrow::Cow::Borrowed(&b1[..])).write_to_vec(d); Ok(()) }) });
+    }
+    {
+        let b1 = b.clone();
+        out.push(BufCall { label: "convert_to_comparable".into(), run: Box::new(move |d, _| { jsonb::convert_to_comparable(&b1, d); Ok(()) }) });
+    }
+    for p in PATH_MENU {
+        for which in 0..7 {
+            let b1 = b.clone();
+            let name = ["get_by_path", "get_by_path_first", "get_by_path_array", "select(First)", "select(Array)", "select(All)", "select(Mixed)"][which];
+            out.push(BufCall {
+                label: format!("{}({})", name, p),
+                run: Box::new(move |d, offs| {
+                    let jp = jsonb::jsonpath::parse_json_path(p.as_bytes())?;
+                    match which {
+                        0 => jsonb::get_by_path(&b1, jp, d, offs),
+                        1 => jsonb::get_by_path_first(&b1, jp, d, offs),
+                        2 => jsonb::get_by_path_array(&b1, jp, d, offs),
+                        k => {
+                            let mode = [jsonb::jsonpath::Mode::First, jsonb::jsonpath::Mode::Array, jsonb::jsonpath::Mode::All, jsonb::jsonpath::Mode::Mixed][k - 3].clone();
+                            let sel = jsonb::jsonpath::Selector::new(jp, mode);
+                            sel.select(&b1, d, offs)
+                        }
+                    }
+                }),
+            });
+        }
+    }
+    out
+}
